@@ -6,6 +6,8 @@
   every schedule.
 -/
 import Proofs.Lemmas.Mask
+import Proofs.Lemmas.ComposeMask
+import Proofs.Lemmas.ComposeGni
 
 namespace C07
 open Pool Mask
@@ -176,5 +178,168 @@ example (unit : Rat → Nat → Nat → Sig) (std : Sig → Rat) (x : Sig) :
     ∃ cols freqs, maskSift (fun _ => σex) (fun y => (y, false)) unit std
       { mode := .ratioImf, amp := .scalar 1, p := 3, thresh := 0 } (.first (2/5) 2) 4 x = .ok (cols, freqs) :=
   ⟨_, _, rfl⟩
+
+/-! ### Cross-model consistency: this model of `mask_sift` and the peeling loop of the Sift model (C03)
+
+  Linked: `Mask.maskSift` / `Mask.maskSiftLoop` (this property: concrete masks, ladder, amplitude modes,
+  recursion on the frequency list, `Except`) and `Sift.maskSift` (C03: the generic `peelLoop` with an
+  abstract per-layer extraction `M`, fuel, `effCap`).  `ComposeMask.maskM` is the `M` built from the
+  Mask model's ingredients (layer k = number of columns so far: amplitude `ampAt k · sdFor …`, frequency
+  `freqs[k]`, `cfg.p` phases on the pool schedule `σ k`; `none` where `mask_sift` raises).
+  Helper lemmas: Proofs/Lemmas/ComposeMask.lean. -/
+
+/-- The two independently written models of `mask_sift` agree: an `.ok (cols, freqs)` of the Mask model
+    is a regular exit of the Sift-model loop with the same columns for every fuel ≥ `cols.length`, and
+    an error of the Mask model is the `.raised` exit of the Sift-model loop. -/
+theorem maskSift_agrees_with_sift_model (σ : Nat → Schedule) (X : Sig → Sig × Bool)
+    (unit : Rat → Nat → Nat → Sig) (std : Sig → Rat) (cfg : Cfg) (src : FreqSrc) (cap : Nat) (x : Sig) :
+    (∀ cols freqs, Mask.maskSift σ X unit std cfg src cap x = .ok (cols, freqs) →
+      ∀ fuel, cols.length ≤ fuel → ∃ fl cp th,
+        Sift.maskSift (ComposeMask.maskM σ X unit std cfg x freqs) cfg.thresh cap (ComposeMask.nfOf src) x fuel
+          = (cols, .done fl cp th)) ∧
+    (∀ e, Mask.maskSift σ X unit std cfg src cap x = .error e →
+      ∀ fuel, (maskFreqs src cap).1.length < fuel → ∃ out,
+        Sift.maskSift (ComposeMask.maskM σ X unit std cfg x (maskFreqs src cap).1) cfg.thresh cap
+          (ComposeMask.nfOf src) x fuel = (out, .raised)) :=
+  ⟨fun cols freqs h fuel hf => ComposeMask.maskSift_ok σ X unit std cfg src cap x cols freqs h fuel hf,
+   fun e h fuel hf => ComposeMask.maskSift_error σ X unit std cfg src cap x e h fuel hf⟩
+
+/-- … as an equivalence: with more fuel than mask frequencies, the Sift-model loop over `maskM` leaves
+    regularly with columns `out` iff the Mask model returns `out` (and the ladder / user list). -/
+theorem maskSift_iff_sift_model (σ : Nat → Schedule) (X : Sig → Sig × Bool) (unit : Rat → Nat → Nat → Sig)
+    (std : Sig → Rat) (cfg : Cfg) (src : FreqSrc) (cap : Nat) (x : Sig) (out : List Sig) (fuel : Nat)
+    (hfuel : (maskFreqs src cap).1.length < fuel) :
+    (∃ fl cp th, Sift.maskSift (ComposeMask.maskM σ X unit std cfg x (maskFreqs src cap).1) cfg.thresh cap
+        (ComposeMask.nfOf src) x fuel = (out, .done fl cp th)) ↔
+    Mask.maskSift σ X unit std cfg src cap x = .ok (out, (maskFreqs src cap).1) :=
+  ComposeMask.maskSift_iff σ X unit std cfg src cap x out fuel hfuel
+
+/-- C03's cap nesting (`C03.maskSift_cap_prefix`) holds of this model: `mask_sift` capped at `k ≤ K`
+    returns exactly the first `k` columns of the run capped at `K` — same masks (the ladder of the smaller
+    cap is a prefix of the larger one), amplitudes and schedules. -/
+theorem maskSift_cap_nested (σ : Nat → Schedule) (X : Sig → Sig × Bool) (unit : Rat → Nat → Nat → Sig)
+    (std : Sig → Rat) (cfg : Cfg) (src : FreqSrc) (k K : Nat) (x : Sig) (c1 c2 : List Sig) (f1 f2 : List Rat)
+    (hk : 0 < k) (hK : k ≤ K)
+    (h1 : Mask.maskSift σ X unit std cfg src k x = .ok (c1, f1))
+    (h2 : Mask.maskSift σ X unit std cfg src K x = .ok (c2, f2)) : c1 = c2.take k :=
+  ComposeMask.maskSift_cap_nested σ X unit std cfg src k K x c1 c2 f1 f2 hk hK h1 h2
+
+/-- C03's cap theorem (`C03.maskSift_cols_le_cap`) holds of this model, without a schedule hypothesis:
+    never more columns than the cap, nor than the user supplied frequencies. -/
+theorem maskSift_cols_le_cap_sift_model (σ : Nat → Schedule) (X : Sig → Sig × Bool)
+    (unit : Rat → Nat → Nat → Sig) (std : Sig → Rat) (cfg : Cfg) (src : FreqSrc) (cap : Nat) (x : Sig)
+    (cols : List Sig) (freqs : List Rat) (hc : 0 < cap)
+    (h : Mask.maskSift σ X unit std cfg src cap x = .ok (cols, freqs)) :
+    cols.length ≤ cap ∧ ∀ fs, src = .list fs → cols.length ≤ fs.length := by
+  obtain ⟨_, _, _, r⟩ := ComposeMask.maskSift_ok σ X unit std cfg src cap x cols freqs h cols.length (Nat.le_refl _)
+  have := C03.maskSift_cols_le_cap (ComposeMask.maskM σ X unit std cfg x freqs) cfg.thresh cap
+    (ComposeMask.nfOf src) x cols.length hc (ComposeMask.ok_list_nonempty h)
+  rw [r] at this
+  refine ⟨this.1, ?_⟩
+  intro fs hs
+  subst hs
+  exact this.2 fs.length rfl
+
+/-- C03's peeling theorem (`C03.maskSift_col_eq_extract`) read on this model: column `k` is the masked
+    extraction `maskM` of layer `k` applied to the input minus the first `k` columns. -/
+theorem maskSift_col_eq_extract_sift_model (σ : Nat → Schedule) (X : Sig → Sig × Bool)
+    (unit : Rat → Nat → Nat → Sig) (std : Sig → Rat) (cfg : Cfg) (src : FreqSrc) (cap : Nat) (x : Sig)
+    (cols : List Sig) (freqs : List Rat)
+    (h : Mask.maskSift σ X unit std cfg src cap x = .ok (cols, freqs)) :
+    ∀ k, k < cols.length → ∃ c f, cols[k]? = some c ∧
+      ComposeMask.maskM σ X unit std cfg x freqs (cols.take k) (Sift.resid x (cols.take k)) = some (c, f) := by
+  obtain ⟨_, _, _, r⟩ := ComposeMask.maskSift_ok σ X unit std cfg src cap x cols freqs h cols.length (Nat.le_refl _)
+  exact C03.maskSift_col_eq_extract _ cfg.thresh cap (ComposeMask.nfOf src) x cols.length cols _ r
+
+-- non-vacuity: a run of the Mask model that returns two columns (cap 2 of a 4-step ladder), and the
+-- Sift-model loop over `maskM` on the same data
+example : Mask.maskSift (fun _ => σex) (fun y => (y, true)) (fun _ _ _ => [1, -1, 1]) (fun _ => 1)
+      { mode := .abs, amp := .scalar 1, p := 3, thresh := 0 } (.first (2/5) 2) 2 [5, 6, 7]
+    = .ok ([[5, 6, 7], [0, 0, 0]], [2/5, (2/5 : Rat) / 2 ^ 1]) := ComposeMask.okEq_sound (by decide +kernel)
+example : ∃ fl cp th, Sift.maskSift (ComposeMask.maskM (fun _ => σex) (fun y => (y, true)) (fun _ _ _ => [1, -1, 1])
+      (fun _ => 1) { mode := .abs, amp := .scalar 1, p := 3, thresh := 0 } [5, 6, 7] [2/5, (2/5 : Rat) / 2 ^ 1])
+      0 2 none [5, 6, 7] 2 = ([[5, 6, 7], [0, 0, 0]], .done fl cp th) :=
+  (maskSift_agrees_with_sift_model (fun _ => σex) (fun y => (y, true)) (fun _ _ _ => [1, -1, 1]) (fun _ => 1)
+    { mode := .abs, amp := .scalar 1, p := 3, thresh := 0 } (.first (2/5) 2) 2 [5, 6, 7]).1 _ _
+    (ComposeMask.okEq_sound (by decide +kernel)) 2 (by decide)
+-- … and the same ladder capped at 1 returns the first column only (hypotheses of `maskSift_cap_nested`)
+example : Mask.maskSift (fun _ => σex) (fun y => (y, true)) (fun _ _ _ => [1, -1, 1]) (fun _ => 1)
+      { mode := .abs, amp := .scalar 1, p := 3, thresh := 0 } (.first (2/5) 2) 1 [5, 6, 7]
+    = .ok ([[5, 6, 7]], [2/5]) := ComposeMask.okEq_sound (by decide +kernel)
+
+/-! ### Composition: `get_next_imf_mask` over `get_next_imf` of the Sift model (C04) and the Extrema envelopes
+
+  Linked: the abstract extractor `X` of this model is instantiated with `ComposeGni.gniX E D o` =
+  `Sift.getNextImf E D o` (envelope oracle `E`, energy oracle `D`, options `o`: stop rule, step, iteration
+  limit, energy threshold), and further with `E = Sift.extEnv I w parab` (the envelopes of the Extrema
+  model, C05).  `get_next_imf` may raise EMDSiftCovergeError, which propagates out of `get_next_imf_mask`;
+  the statements are about calls in which the extractions of the masked signals return (for the fixed-count
+  rule that is every call).  Helper lemmas: Proofs/Lemmas/ComposeGni.lean. -/
+
+/-- Phase-average rule for the composed pipeline: if `get_next_imf` returns `(c_i, f_i)` on `x + m_i`,
+    the masked IMF is the mean over the phases of `c_i − m_i` and the flag is the disjunction of the `f_i`. -/
+theorem getNextImfMask_over_getNextImf_spec (E : Sig → Sift.Env) (D : Sig → Sig → Rat) (o : Sift.ImfOpts)
+    (mask : Nat → Sig) (p : Nat) (x : Sig) (cs : Nat → Sig) (fs : Nat → Bool)
+    (h : ∀ i, i < p → Sift.getNextImf E D o (Sig.add x (mask i)) = .imf (cs i) (fs i)) :
+    getNextImfMask (ComposeGni.gniX E D o) mask p x =
+      (Ensemble.meanOver x.length ((List.range p).map fun i => Sig.sub (cs i) (mask i)), (List.range p).any fs) :=
+  ComposeGni.getNextImfMask_gni E D o mask p x cs fs h
+
+/-- With the fixed-count stop rule (`max_iters ≥ 1`) no hypothesis is needed: every masked extraction
+    returns (C04.fixed_never_convergeError) and the rule above holds. -/
+theorem getNextImfMask_over_getNextImf_fixed (E : Sig → Sift.Env) (D : Sig → Sig → Rat) (o : Sift.ImfOpts)
+    (hf : o.stop = .fixed) (hm : 0 < o.maxIters) (mask : Nat → Sig) (p : Nat) (x : Sig) :
+    ∃ (cs : Nat → Sig) (fs : Nat → Bool),
+      (∀ i, Sift.getNextImf E D o (Sig.add x (mask i)) = .imf (cs i) (fs i)) ∧
+      getNextImfMask (ComposeGni.gniX E D o) mask p x =
+        (Ensemble.meanOver x.length ((List.range p).map fun i => Sig.sub (cs i) (mask i)), (List.range p).any fs) := by
+  have hall : ∀ i, Sift.getNextImf E D o (Sig.add x (mask i)) =
+      .imf (ComposeGni.gniX E D o (Sig.add x (mask i))).1 (ComposeGni.gniX E D o (Sig.add x (mask i))).2 := by
+    intro i
+    obtain ⟨c, f, h⟩ := ComposeGni.fixed_total E D o hf hm (Sig.add x (mask i))
+    rw [ComposeGni.gniX_of_imf h]; exact h
+  exact ⟨_, _, hall, ComposeGni.getNextImfMask_gni E D o mask p x _ _ (fun i _ => hall i)⟩
+
+/-- Zero-amplitude masks over `get_next_imf`: `get_next_imf_mask` returns exactly what `get_next_imf`
+    returns on the unmasked signal (IMF and flag), for any `nphases ≥ 1`, every stop rule and options. -/
+theorem getNextImfMask_over_getNextImf_zero_amp (E : Sig → Sift.Env) (hE : Sift.EnvLen (fun _ => E))
+    (D : Sig → Sig → Rat) (o : Sift.ImfOpts) (unit : Nat → Sig) (p : Nat) (x : Sig) (hp : 0 < p)
+    (hu : ∀ i, i < p → (unit i).length = x.length) (c : Sig) (f : Bool)
+    (h : Sift.getNextImf E D o x = .imf c f) :
+    getNextImfMask (ComposeGni.gniX E D o) (fun i => Sig.smul 0 (unit i)) p x = (c, f) := by
+  have hX : (ComposeGni.gniX E D o x).1.length = x.length := by
+    rw [ComposeGni.gniX_of_imf h]
+    exact C04.result_length (fun _ => E) hE D o x c f h
+  rw [getNextImfMask_zero_amp (ComposeGni.gniX E D o) unit p x hp hu hX, ComposeGni.gniX_of_imf h]
+
+/-- … for the whole chain get_padded_extrema → interp_envelope → get_next_imf → get_next_imf_mask
+    (envelopes of the Extrema model, only the interpolant abstract). -/
+theorem getNextImfMask_pipeline_zero_amp (I : Extrema.Interp) (w : Nat) (parab : Bool)
+    (D : Sig → Sig → Rat) (o : Sift.ImfOpts) (unit : Nat → Sig) (p : Nat) (x : Sig) (hp : 0 < p)
+    (hu : ∀ i, i < p → (unit i).length = x.length) (c : Sig) (f : Bool)
+    (h : Sift.getNextImf (Sift.extEnv I w parab) D o x = .imf c f) :
+    getNextImfMask (ComposeGni.gniX (Sift.extEnv I w parab) D o) (fun i => Sig.smul 0 (unit i)) p x = (c, f) :=
+  getNextImfMask_over_getNextImf_zero_amp _ (Sift.extEnv_len I w parab) D o unit p x hp hu c f h
+
+/-- The continue flag of the composed pipeline (C07 flag rule + C04 flag rule, no energy threshold): the
+    masked extraction clears the flag exactly when every masked signal `x + m_i` already lacks an
+    envelope — i.e. no phase could be sifted at all. -/
+theorem getNextImfMask_over_getNextImf_flag (E : Sig → Sift.Env) (D : Sig → Sig → Rat) (o : Sift.ImfOpts)
+    (he : o.energyThresh = none) (hb : 0 < Sift.budget o) (mask : Nat → Sig) (p : Nat) (x : Sig)
+    (cs : Nat → Sig) (fs : Nat → Bool)
+    (h : ∀ i, i < p → Sift.getNextImf E D o (Sig.add x (mask i)) = .imf (cs i) (fs i)) :
+    (getNextImfMask (ComposeGni.gniX E D o) mask p x).2 = false ↔
+      ∀ i, i < p → ((E (Sig.add x (mask i))).1 = none ∨ (E (Sig.add x (mask i))).2 = none) := by
+  rw [ComposeGni.getNextImfMask_gni E D o mask p x cs fs h]
+  simp only [List.any_eq_false, List.mem_range]
+  constructor
+  · intro hall i hi
+    exact (ComposeGni.flag_false_iff_env E D o he hb _ _ _ (h i hi)).mp (by simpa using hall i hi)
+  · intro hall i hi
+    simpa using (ComposeGni.flag_false_iff_env E D o he hb _ _ _ (h i hi)).mpr (hall i hi)
+
+-- non-vacuity: the toy oracle / options of C04 (fixed count 2): the hypotheses of the fixed-rule theorem
+example : (C04.toyO .fixed 2).stop = .fixed ∧ 0 < (C04.toyO .fixed 2).maxIters ∧ 0 < Sift.budget (C04.toyO .fixed 2) :=
+  ⟨rfl, by decide, by decide⟩
 
 end C07
